@@ -175,7 +175,9 @@ def a_sites(led, rid, ctx):
     table = load_table()
     seen = set()
     n = n_auto = n_safe = 0
-    for key, kind, f, line, d in sites(lib):
+    import itertools
+    # the front ends hand 64-bit literals of the input to the library: narrowing there is a site too
+    for key, kind, f, line, d in itertools.chain(sites(lib), sites(ctx.bin)):
         n += 1
         site = "%s:%d" % (f.file, line)
         why = auto(f, kind, d)
